@@ -487,8 +487,10 @@ class PropertyCheck:
             "wall_s": round(time.time() - self.t0, 2),
             "violations": violations,
         }
-        (ROOT / "evidence").mkdir(exist_ok=True)
-        (ROOT / "evidence" / f"{self.prop_id}.json").write_text(json.dumps(ev, indent=1, default=str))
+        # evidence/ describes /repo itself; a run against a scratch tree (VERIF_REPO) must not overwrite it
+        evdir = ROOT / ("evidence" if str(REPO) == "/repo" else "evidence-scratch")
+        evdir.mkdir(exist_ok=True)
+        (evdir / f"{self.prop_id}.json").write_text(json.dumps(ev, indent=1, default=str))
 
     # ---- replay ------------------------------------------------------------------------------
     def replay(self, path: str) -> int:
